@@ -21,7 +21,7 @@ import LolHtml.Model.EditDoc
 import LolHtml.Spec.EditDoc
 
 namespace LolHtml.Lane.Edit
-open LolHtml LolHtml.Model
+open LolHtml LolHtml.EditModel
 
 def pBytes (s : String) : Option Bytes := ofHex s
 
